@@ -18,7 +18,92 @@ func init() {
 		c19R1(c)
 		c19R2(c)
 		c19R3(c)
+		c19R4(c)
 	})
+}
+
+// c19R4: the carried stream comes back intact only if the reader side never
+// reports an end that the peer did not send and never reads ahead of what it
+// parses. (a) FakeTLS.Read returns the result of readBuf.Read only where the
+// buffer is known to be non-empty (bytes.Buffer.Read answers io.EOF on an
+// empty buffer: an empty application record must not end the stream);
+// (b) in package faketls an io.Reader parameter is consumed only through
+// io.ReadFull, io.TeeReader (whose result is held to the same rule) or a
+// hand-over to another function of the package — a buffering wrapper that is
+// dropped on return swallows the bytes that follow the ServerHello.
+func c19R4(c *engine.Ctx) {
+	n := 0
+	if rd := c.MustFunc("C19.R4", "mtproxy/faketls", "FakeTLS.Read"); rd != nil {
+		for _, call := range engine.CallsTo(rd, false, "(*bytes.Buffer).Read") {
+			n++
+			buf := engine.Describe(engine.Args(call.Common())[0])
+			ok := engine.GuardedBy(call, func(k engine.Cmp) bool {
+				for _, q := range []engine.Cmp{k, k.Swap()} {
+					lc := engine.CallOf(q.X)
+					if lc == nil || engine.CalleeID(lc.Common()) != "(*bytes.Buffer).Len" || engine.Describe(engine.Args(lc.Common())[0]) != buf {
+						continue
+					}
+					v, isK := engine.ConstInt(q.Y)
+					if isK && ((q.Op == token.GTR && v >= 0) || (q.Op == token.GEQ && v >= 1) || (q.Op == token.NEQ && v == 0)) {
+						return true
+					}
+				}
+				return false
+			})
+			c.Check(ok, "C19.R4", "FakeTLS.Read/buffer-read-only-when-non-empty#"+ordinalCall(rd, call), call.Pos(), "readBuf.Read on an empty buffer returns io.EOF: it must be behind readBuf.Len() > 0, otherwise an empty record ends the stream for the reader")
+		}
+	}
+	sp := c.SSA["mtproxy/faketls"]
+	for _, f := range allFunctions(c, sp) {
+		for _, p := range f.Params {
+			if p.Type().String() != "io.Reader" {
+				continue
+			}
+			var check func(v ssa.Value, d int)
+			check = func(v ssa.Value, d int) {
+				if v.Referrers() == nil || d > 4 {
+					return
+				}
+				for _, ref := range *v.Referrers() {
+					switch x := ref.(type) {
+					case *ssa.DebugRef:
+					case *ssa.Phi:
+						check(x, d+1)
+					case ssa.CallInstruction:
+						n++
+						id := engine.CalleeID(x.Common())
+						a := x.Common().Args
+						ok := false
+						switch {
+						case id == "io.ReadFull" && len(a) > 0 && a[0] == v:
+							ok = true
+						case id == "io.TeeReader" && len(a) > 0 && a[0] == v:
+							ok = true
+							if val := x.Value(); val != nil {
+								check(val, d+1)
+							}
+						case x.Common().StaticCallee() != nil && x.Common().StaticCallee().Pkg == f.Pkg:
+							ok = true // the callee's own parameter is held to this rule
+						}
+						c.Check(ok, "C19.R4", engine.FuncID(f)+"/reader-use:"+engine.Short(id)+"#"+ordinalCall(f, x), x.Pos(), "the stream parameter is consumed by %s: only io.ReadFull (exact reads), io.TeeReader and functions of this package may read it (a read-ahead wrapper loses the bytes after the handshake)", engine.Short(id))
+					default:
+						if _, isInstr := ref.(ssa.Value); isInstr {
+							if mi, isMI := ref.(*ssa.MakeInterface); isMI {
+								check(mi, d+1)
+								continue
+							}
+							if ct, isCT := ref.(*ssa.ChangeInterface); isCT {
+								check(ct, d+1)
+								continue
+							}
+						}
+					}
+				}
+			}
+			check(p, 0)
+		}
+	}
+	c.Floor("C19.R4", 4, n)
 }
 
 func intWidth(t types.Type) int {
